@@ -48,6 +48,34 @@ func nontrivialC02(c caseProg, o *ref.Outcome, sh *progShape) bool {
 func TestC02(t *testing.T)       { runProgProperty(t, "C02", genC02, nontrivialC02, nil) }
 func TestReplayC02(t *testing.T) { replayOnly(t); TestC02(t) }
 
+// TestC02Sweeps enumerates the operand-value sub-space against R1: for every
+// k in 0..300 and every statement shape of gen.OperandSweepProg, the program
+// whose variables sit in slot k and whose names and literals have constant
+// index k (so that an operand byte takes every value, also the values of
+// opcodes and the values around the one-/two-byte operand boundary).
+func TestC02Sweeps(t *testing.T) {
+	if !firstShard() || replayPath() != "" {
+		t.Skip("runs in the first shard only")
+	}
+	rec := harness.Get("C02")
+	rec.SetScope("sweeps")
+	n := 0
+	for k := 0; k <= 300; k++ {
+		for kind := 0; kind < gen.OperandSweepKinds; kind++ {
+			p := gen.OperandSweepProg(k, kind)
+			r := gen.RenderProg(p)
+			lay := gen.PlainLayout(r.Toks)
+			src, _ := renderChecked(r.Toks, lay)
+			n++
+			if viol := compareOutcome(ref.Run(p), interpret(src)); viol != "" {
+				rec.Fail(t, caseProg{Prog: p, Layout: lay, Src: src}, "operand sweep k=%d kind=%d: %s\nsource:\n%s", k, kind, viol, clip(src, 600))
+			}
+		}
+	}
+	rec.Count("sweep:operand-value-programs", n)
+	rec.SetExtra("exhaustive_subspace", "operand values 0..300 x 10 statement shapes in last position of a scope (gen.OperandSweepProg), each compared with R1")
+}
+
 // TestC02Mutants extends the domain beyond what the tree generator writes:
 // the token list of a generated program gets 1..3 token-level edits; if the
 // recogniser R2 still accepts it, the tree R2 assigns to it is evaluated by
